@@ -35,6 +35,9 @@ func (s *Sys) execFault(op []string) string {
 	if op[0] == "import" {
 		return s.execFaultImport(atoi(op[1]))
 	}
+	if op[0] == "bigimport" {
+		return execFaultBigImport(int(atoi(op[1])))
+	}
 	if op[0] == "reopen" {
 		return s.execFaultReopen(op)
 	}
@@ -180,11 +183,39 @@ func (s *Sys) execFaultImport(v int64) string {
 	if err != nil {
 		return "fl(skip);err"
 	}
-	wantHash := imm.Hash()
-	wantSize := imm.Size()
+	return faultImportNodes(nodes, v, imm.Hash(), imm.Size())
+}
+
+// execFaultBigImport: "fault bigimport <leaves>". A tree with that many leaves is built in a scratch
+// database (it is not part of the modelled history), exported, and imported under faults: with more
+// than 10000 leaves the import spans three or more background batches.
+func execFaultBigImport(leaves int) string {
+	db := dbm.NewMemDB()
+	t := iavl.NewMutableTree(db, 0, true, iavl.NewNopLogger())
+	for i := 0; i < leaves; i++ {
+		if _, err := t.Set([]byte(fmt.Sprintf("key%07d", i*7919%10000019)), []byte(fmt.Sprint(i))); err != nil {
+			return "fl(skip);ok"
+		}
+	}
+	if _, _, err := t.SaveVersion(); err != nil {
+		return "fl(skip);ok"
+	}
+	imm, err := t.GetImmutable(1)
+	if err != nil {
+		return "fl(skip);ok"
+	}
+	nodes, err := exportAll(imm)
+	if err != nil {
+		return "fl(skip);ok"
+	}
+	return faultImportNodes(nodes, 1, imm.Hash(), imm.Size())
+}
+
+func faultImportNodes(nodes []*iavl.ExportNode, v int64, wantHash []byte, wantSize int64) string {
+	var failNth map[string]int // set for the runs that fail the k-th batch write whatever its position
 	run := func(failAt map[int]bool, trace bool) (*hooks, *dbm.MemDB, error) {
 		db := dbm.NewMemDB()
-		h := &hooks{failAt: failAt, trace: trace}
+		h := &hooks{failAt: failAt, trace: trace, failNth: failNth}
 		wdb := &wrapDB{inner: db, h: h}
 		t := iavl.NewMutableTree(wdb, 0, true, iavl.NewNopLogger())
 		h.calls = 0
@@ -216,6 +247,33 @@ func (s *Sys) execFaultImport(v int64) string {
 	}
 	injected := 0
 	firstAborted := ""
+	// the batch writes of a large import run in a background goroutine: their position among the
+	// other calls varies from run to run, so each of them is also failed by its ordinal
+	nbw := 0
+	for _, k := range ref.seq {
+		if k == "bwrite" {
+			nbw++
+		}
+	}
+	for k := 1; k <= nbw; k++ {
+		failNth = map[string]int{"bwrite": k}
+		h, db, err := run(nil, false)
+		failNth = nil
+		injected += h.failed
+		if h.failed == 0 {
+			continue
+		}
+		if verdict := importVerdict(db, err, v, wantHash, wantSize); verdict != "" {
+			res := fmt.Sprintf("fl(viol,op=import_%d,i=%d/%d,kind=%s,fault=bwrite%d);ok", v, 10001*k, n, verdict, k)
+			if verdict == "reopenerr" && k >= 2 {
+				if firstAborted == "" {
+					firstAborted = res
+				}
+				continue
+			}
+			return res
+		}
+	}
 	for i := 1; i <= n; i++ {
 		if !pos[i] {
 			continue
@@ -225,32 +283,7 @@ func (s *Sys) execFaultImport(v int64) string {
 		if h.failed == 0 {
 			continue
 		}
-		verdict := ""
-		if err == nil {
-			verdict = "importfailedok"
-		} else {
-			t2 := iavl.NewMutableTree(db, 0, true, iavl.NewNopLogger())
-			lv, lerr := t2.Load()
-			switch {
-			case lerr != nil:
-				verdict = "reopenerr"
-			case lv == 0 && len(t2.AvailableVersions()) == 0:
-			case lv == v:
-				cnt := int64(0)
-				im2, e2 := t2.GetImmutable(v)
-				if e2 != nil {
-					verdict = "reopenmixture"
-					break
-				}
-				im2.IterateRange(nil, nil, true, func(_, _ []byte) bool { cnt++; return false })
-				if cnt != wantSize || !bytes.Equal(im2.Hash(), wantHash) {
-					verdict = "reopenmixture"
-				}
-			default:
-				verdict = "reopenmixture"
-			}
-			_ = t2.Close()
-		}
+		verdict := importVerdict(db, err, v, wantHash, wantSize)
 		if verdict != "" {
 			res := fmt.Sprintf("fl(viol,op=import_%d,i=%d/%d,kind=%s,fault=%s);ok", v, i, n, verdict, h.failKind)
 			// an import aborted after a background batch was written leaves nodes without a root and
@@ -330,4 +363,33 @@ func (s *Sys) execFaultReopen(op []string) string {
 		}
 	}
 	return fmt.Sprintf("fl(ok,n=%d,inj=%d);%s", n, injected, s.Exec(op))
+}
+
+// importVerdict judges what a faulted import left behind: the fault must have been reported, and
+// the database must reopen empty or with version v complete.
+func importVerdict(db *dbm.MemDB, err error, v int64, wantHash []byte, wantSize int64) string {
+	if err == nil {
+		return "importfailedok"
+	}
+	t2 := iavl.NewMutableTree(db, 0, true, iavl.NewNopLogger())
+	defer t2.Close()
+	lv, lerr := t2.Load()
+	switch {
+	case lerr != nil:
+		return "reopenerr"
+	case lv == 0 && len(t2.AvailableVersions()) == 0:
+		return ""
+	case lv == v:
+		cnt := int64(0)
+		im2, e2 := t2.GetImmutable(v)
+		if e2 != nil {
+			return "reopenmixture"
+		}
+		im2.IterateRange(nil, nil, true, func(_, _ []byte) bool { cnt++; return false })
+		if cnt != wantSize || !bytes.Equal(im2.Hash(), wantHash) {
+			return "reopenmixture"
+		}
+		return ""
+	}
+	return "reopenmixture"
 }
